@@ -158,6 +158,11 @@ def classify(prop):
             return "cbor_assert", []
         return "assertion", []
     if cls in SAFETY_CLASSES:
+        # safety obligations generated for the text of the SPECIFICATION itself (a pointer sum inside a loop-invariant
+        # predicate, an index expression in a harness assertion) say nothing about the library: they are kept apart
+        # (kind spec_safety), count for no property and never switch the vacuity guard off
+        if f == "<predicate>" or f.startswith(os.path.join(VERIF, "harness")) or f.startswith(os.path.join(VERIF, "contracts")):
+            return "spec_safety", []
         return "safety", []
     return "other", []
 
@@ -425,7 +430,7 @@ def run_proof(proof, tier, keep=False, backend=None):
         # a FAILURE of a real obligation is a verdict whatever the cover points say (a change can make a cover point
         # unreachable AND fail obligations: that is a violation, not a vacuity problem); the vacuity guard only
         # protects runs in which everything "passed"
-        any_failure = any(ob["kind"] != "cover" and ob["status"] == "FAILURE" for ob in res["obligations"])
+        any_failure = any(ob["kind"] not in ("cover", "spec_safety") and ob["status"] == "FAILURE" for ob in res["obligations"])
         ncover = 0
         res["unreachable_covers"] = []
         for ob in res["obligations"]:
@@ -442,7 +447,7 @@ def run_proof(proof, tier, keep=False, backend=None):
             raise Undecided("fewer cover points than required (%d < %d)" % (ncover, proof.get("min_covers", 1)))
         # expected failures (canary mode)
         # counterexamples for real failures
-        fails = [ob for ob in res["obligations"] if ob["kind"] != "cover" and ob["status"] != "SUCCESS"]
+        fails = [ob for ob in res["obligations"] if ob["kind"] not in ("cover", "spec_safety") and ob["status"] != "SUCCESS"]
         for ob in fails[:proof.get("max_traces", 2)]:
             if ob["status"] == "FAILURE":
                 tr = trace_for(proof, gb, tmp, log, ob["name"], backend=backend)
